@@ -18,7 +18,7 @@ flags (`abortHit`, `staleNormal`) or the queue bound, and a witness theorem exhi
 trace of the model reaching the bad state (each is replayed on the real code by the harness and
 listed in known_findings.jsonl).
 -/
-import PV.C22.LemmasB
+import PV.C22.LemmasC
 import PV.C22.Spec
 namespace PV.C22
 
@@ -158,6 +158,44 @@ theorem C22_membership {s s' : St} {l : Label} (h : Reachable s) (hs : step s l 
     repeat' split at hc
     all_goals cases hc
     all_goals rfl
+
+/-- … and the job whose add/remove is applied ended DONE: never a job that an abort has marked
+ABORTED, whatever the interleaving of the last completion, the abort and the listener's steps. -/
+theorem C22_member_change_only_for_done_job {s s' : St} {l : Label} (h : Reachable s)
+    (hs : step s l = some s') (hn : s'.nodes ≠ s.nodes) :
+    ∃ k j, s.lpc = .done2 k ∧ s.jobs[k]? = some j ∧ j.state = .done ∧ allDone j.ids := by
+  obtain ⟨k, j, hl, hj, hd, _⟩ := C22_membership h hs hn
+  exact ⟨k, j, hl, hj, reachable_invC h k j hl hj, hd⟩
+
+/-- The abort interplay, step level: when an abort has cleared currentJob between the delivery of the
+result (`lRecv`, even of DONE) and the listener's `completeCurrentJob`, that call fails with
+ErrResizeNotRunning, `handleNodeAction` returns, and the member list is NOT changed
+(`unprotectedCompleteCurrentJob` must report the missing job — the DONE branch relies on it). -/
+theorem C22_abort_before_completion_skips_member_change {s s' : St} {k : Nat} {r : JResult}
+    (hl : s.lpc = .got k r) (hc : s.cur = none) (hs : step s .lComplete = some s') :
+    s'.lpc = .top ∧ s'.nodes = s.nodes ∧ s'.jobs = s.jobs := by
+  have h := step_core hs
+  simp only [stepCore] at h
+  unfold stepLComplete at h
+  rw [hl] at h
+  simp only at h
+  split at h
+  · split at h
+    · cases h
+    · simp only [hc] at h
+      cases h
+      exact ⟨rfl, rfl, rfl⟩
+  · cases h
+
+/-- The interleaving itself: node 2's (last) success completion puts DONE on `j.result`, the listener
+receives it, an abort is accepted, then the listener goes on: the job is ABORTED and the member list
+is still [0, 1]. -/
+theorem C22_abort_after_done_delivery_example :
+    (runTrace (init 0 [1])
+      [.join 2, .lIdle, .lGen (some [2]), .rStart 0, .rGo 0, .complete 0 2 false, .lRecv, .abort,
+       .lComplete, .lTop, .lAfterDrain]).map
+      (fun s => (s.lpc, s.nodes, s.cur, s.jobs.map (·.state), s.abortHit)) =
+    some (.idle, [0, 1], none, [.aborted], true) := by decide
 
 /-- `reported` enters a job's id map only through a success completion for that node. -/
 theorem C22_reported_only_by_success (ids : List (Nat × IdSt)) (n m : Nat)
